@@ -225,7 +225,8 @@ def gen_source(rng, cfg, maxparts=8, unicode_text=False):
         elif k < 0.33:
             parts.append(rng.choice(["\r\n", "\r", "\n", "\n\n", " \n ", "\t"]))
         elif k < 0.5:
-            parts.append(bs + rng.choice(mods) + gen_tag_content(rng) + rng.choice(mods) + be)
+            ind = rng.choice(["", "", "\n  ", "\n\xa0", "\n\u3000 ", "\n\x85\t", "\n\x1c", "\n \u2003"]) if unicode_text or rng.random() < 0.3 else ""
+            parts.append(ind + bs + rng.choice(mods) + gen_tag_content(rng) + rng.choice(mods) + be)
         elif k < 0.62:
             parts.append(vs + rng.choice(["", "", "-", "+"]) + gen_tag_content(rng) + rng.choice(["", "", "-", "+"]) + ve)
         elif k < 0.72:
